@@ -24,6 +24,12 @@
 //!                  /W — starts exactly at 255, 256, 257, 65535, 65536, 65537 (thorough: every offset of a
 //!                  window around 256 and 65536, and 2^24 − 1, 2^24, 2^24 + 1); all three oracles and the
 //!                  correspondence run on them
+//!   c10.bytes      the whole file, byte for byte: `PdfBuilder::build` against `BuildBytes.buildB` of the model
+//!                  (Model/BuildBytes.lean on Model/SaveBytes.lean): numbering, page dictionary insert order,
+//!                  framing of every object, cross-reference stream object, `startxref` trailer. What a page
+//!                  contains travels in primitive form, obtained from the library's own `to_primitive` of the
+//!                  fields (boxes, rotation, resources) and `serialize_ops`; at most one font and one
+//!                  graphics state per page (`HashMap` order is not reproducible beyond that)
 //! More correspondence (the width decision itself, `byte_len`, is private: it is reached through
 //! `XRefTable::write_stream`)
 //!   c10.bytelen    tables whose largest first / second field is n: every n of an initial segment, every
@@ -32,7 +38,8 @@
 //!                  boundaries: /W and every byte of the rows against the model's `widths` / `rowBytes`
 
 use crate::c09::pdfread::*;
-use crate::c09::{from_prim, measure, to_dict, to_prim, Appended};
+use crate::c03::render::{show_val, Val};
+use crate::c09::{from_prim, measure, pval_to_val, to_dict, to_prim, Appended};
 use crate::driver::Driver;
 use crate::report::*;
 use crate::rng::Rng;
@@ -40,7 +47,7 @@ use pdf::build::{CatalogBuilder, PageBuilder, PdfBuilder};
 use pdf::content::{Color, LineCap, LineJoin, Matrix, Op, Point, Rgb, ViewRect, Winding};
 use pdf::file::FileOptions;
 use pdf::font::{Font, FontType};
-use pdf::object::{GraphicsStateParameters, InfoDict, Lazy, NoResolve, Object, Rectangle, Resolve, Resources, Trapped};
+use pdf::object::{GraphicsStateParameters, InfoDict, Lazy, NoResolve, NoUpdate, Object, ObjectWrite, Rectangle, Resolve, Resources, Trapped};
 use pdf::primitive::{Date, Name, PdfString, Primitive, TimeRel};
 use serde_json::{json, Value};
 use std::collections::{BTreeMap, BTreeSet};
@@ -868,6 +875,99 @@ fn steer_targets(thorough: bool) -> Vec<usize> {
 }
 
 /// `XRefTable::write_stream` on tables with chosen fields: the width decision and the row bytes
+/// the model's request for one document: every payload in primitive form, from the library's own
+/// `to_primitive` of the builder's fields
+fn bytes_request(pages: &[GenPage], info: &Option<GenInfo>) -> Result<String, String> {
+    let val = |p: &Primitive| -> Val { pval_to_val(&from_prim(p, &NoResolve), false) };
+    let entries = |es: Vec<(String, Val)>| -> String { show_val(&Val::Dict(es.into_iter().map(|(k, v)| (k.into_bytes(), v)).collect())) };
+    let mut ps = vec![];
+    for p in pages {
+        let pb = page_builder(p)?;
+        let other: Vec<(String, Val)> = pb.other.iter().map(|(k, v)| (k.as_str().to_string(), val(v))).collect();
+        let mut boxes = vec![];
+        for (k, r) in [("MediaBox", pb.media_box), ("CropBox", pb.crop_box), ("TrimBox", pb.trim_box)] {
+            if let Some(r) = r {
+                boxes.push((k.to_string(), val(&r.to_primitive(&mut NoUpdate).map_err(|e| format!("rect: {}", e))?)));
+            }
+        }
+        let mut rest = vec![("Rotate".to_string(), val(&pb.rotate.to_primitive(&mut NoUpdate).map_err(|e| format!("rotate: {}", e))?))];
+        for (k, v) in [("Metadata", &pb.metadata), ("LGIDict", &pb.lgi), ("VP", &pb.vp)] {
+            if let Some(v) = v {
+                let v = v.to_primitive(&mut NoUpdate).map_err(|e| format!("{}: {}", k, e))?;
+                if !matches!(v, Primitive::Null) {
+                    rest.push((k.to_string(), val(&v)));
+                }
+            }
+        }
+        let res = pb.resources.to_primitive(&mut NoUpdate).map_err(|e| format!("resources: {}", e))?;
+        let data = pdf::content::serialize_ops(&pb.ops).map_err(|e| format!("ops: {}", e))?;
+        ps.push(format!("{}~{}~{}~{}~{}", entries(other), entries(boxes), entries(rest), show_val(&val(&res)), crate::driver::hex(&data)));
+    }
+    let inf = match info {
+        Some(i) => show_val(&val(&info_dict(i).to_primitive(&mut NoUpdate).map_err(|e| format!("info: {}", e))?)),
+        None => "n".into(),
+    };
+    Ok(format!("c10.bytes {} {}", inf, if ps.is_empty() { "-".to_string() } else { ps.join("|") }))
+}
+
+/// `PdfBuilder::build` against `BuildBytes.buildB`, byte for byte
+fn bytes_stream(driver: &Driver, seed: u64, thorough: bool, replay: Option<&Value>) -> Stream {
+    let mut st = Stream::new("c10.bytes", true);
+    let mut reqs = vec![];
+    let mut imps = vec![];
+    let mut sizes = vec![];
+    let (from, to) = match replay {
+        Some(r) => {
+            let c = r["case"].as_u64().unwrap_or(0);
+            (c, c + 1)
+        }
+        None => (0, if thorough { 6000 } else { 300 }),
+    };
+    let seed = replay.and_then(|r| r["seed"].as_u64()).unwrap_or(seed);
+    for case in from..to {
+        let mut rng = Rng::derive(seed, "c10.bytes", case);
+        let mut c = gen_case(&mut rng);
+        if case % 50 == 7 {
+            c.pages = (0..255 + rng.usize(4)).map(|_| blank_page()).collect();
+        }
+        for p in c.pages.iter_mut() {
+            p.fonts.truncate(1);
+            p.gs.truncate(1);
+            // operations may only name what is left
+            let fonts = p.fonts.clone();
+            let gs = p.gs.clone();
+            p.ops = gen_ops(&mut rng, &fonts, &gs);
+        }
+        let r = catch_unwind(AssertUnwindSafe(|| bytes_request(&c.pages, &c.info)));
+        let rq = match r {
+            Ok(Ok(rq)) => rq,
+            Ok(Err(e)) => {
+                st.count(&format!("skipped: {}", crate::report::trunc(&e)));
+                continue;
+            }
+            Err(_) => {
+                st.count("skipped: panic while rendering the payloads");
+                continue;
+            }
+        };
+        let imp = match build(&c.pages, &c.info, c.cached) {
+            Ok(bytes) => format!("ok/{}", crate::driver::hex(&bytes)),
+            Err(e) if e.starts_with("panic") => "panic".to_string(),
+            Err(_) => "err".to_string(),
+        };
+        st.count(&format!("pages={}", match c.pages.len() { 0 => "0", 1 => "1", 2..=9 => "2-9", 10..=254 => "10-254", _ => "255+" }));
+        st.count(if c.info.is_some() { "info=yes" } else { "info=no" });
+        sizes.push(c.pages.len());
+        reqs.push(rq);
+        imps.push(imp);
+    }
+    let resp = driver.ask(&reqs);
+    for (((rq, m), i), n) in reqs.iter().zip(resp.iter()).zip(imps.iter()).zip(sizes.iter()) {
+        st.case(rq, m, i, *n > 0);
+    }
+    st
+}
+
 fn table_streams(driver: &Driver, seed: u64, thorough: bool) -> (Stream, Stream) {
     use pdf::xref::{XRef, XRefTable};
     let real = |entries: &[XRef]| -> String {
@@ -1079,6 +1179,9 @@ pub fn run(driver: &Driver, seed: u64, thorough: bool, replay: Option<&Value>) -
         st.case(rq, m, i, f.get(2).map(|n| *n != "0").unwrap_or(false));
     }
     rep.streams.push(st);
+    if wanted("c10.bytes") {
+        rep.streams.push(bytes_stream(driver, seed, thorough, replay.filter(|r| r["stream"].as_str() == Some("c10.bytes"))));
+    }
     if replay.is_none() {
         let (bl, tb) = table_streams(driver, seed, thorough);
         rep.streams.push(bl);
